@@ -84,7 +84,28 @@ class Runner:
         kind = case.get('clock', 'sys')
         self.alt = {'sys': None, 'tempo': self.clk.TempoClock(1) if kind == 'tempo' else None,
                     'app': self.clk.AppClock}.get(kind)
+        # the test of a Condition 'can be a boolean or a callable that returns one': per case, the tests are plain
+        # booleans or callables of one kind (function, bound method, functools.partial, object with __call__)
+        # reading a flag that the `test` operations set
+        self.flags = [False] * case['nc']
+        self.testkind = case.get('testkind', 'bool')
         self.conds = [stm.Condition() for _ in range(case['nc'])]
+        if self.testkind != 'bool':
+            import functools
+            flags = self.flags
+
+            class Guard:
+                def __init__(self, c):
+                    self.c = c
+
+                def holds(self):
+                    return flags[self.c]
+
+                def __call__(self):
+                    return flags[self.c]
+            for c, cond in enumerate(self.conds):
+                cond.test = {'lambda': (lambda c=c: flags[c]), 'method': Guard(c).holds,
+                             'partial': functools.partial(flags.__getitem__, c), 'object': Guard(c)}[self.testkind]
         self.fvs = [stm.FlowVar() for _ in range(case['nf'])]
 
     # ---- encoding -----------------------------------------------------------------------
@@ -153,6 +174,16 @@ class Runner:
         self.xlog.append(['rop', actor, t, o, before, refused, r.state.name])
         return refused
 
+    def set_test(self, c, v):
+        self.flags[c] = v
+        if self.testkind == 'bool':
+            self.conds[c].test = v
+
+    def holds(self, c):
+        """What the test of condition c evaluates to, read by the harness itself (not through Condition.test)."""
+        t = self.conds[c]._test
+        return bool(t() if callable(t) else t)
+
     def fvset(self, f, v):
         try:
             self.fvs[f].value = v
@@ -209,7 +240,7 @@ class Runner:
                 run.conds[a[1]].unhang()
             elif op == 'test':
                 run.xlog.append(['test', a[1], a[2] == 'T'])
-                run.conds[a[1]].test = (a[2] == 'T')
+                run.set_test(a[1], a[2] == 'T')
             elif op == 'fvset':
                 rebind = run.fvset(a[1], run.dec(a[2]))
                 run.xlog.append(['fvset', a[1], a[2], rebind])
@@ -263,7 +294,7 @@ class Runner:
                     got = yield v
                     run.log.append(f'recv({i},{run.enc(got)})')
                 elif op == 'wait':
-                    run.xlog.append(['exit', i, 'wait', a[1], bool(run.conds[a[1]].test)])
+                    run.xlog.append(['exit', i, 'wait', a[1], run.holds(a[1])])
                     yield from run.conds[a[1]].wait()
                     run.log.append(f'resumed({i})')
                 elif op == 'fvget':
@@ -277,7 +308,30 @@ class Runner:
                     simple(k, a)
             run.xlog.append(['exit', i, 'return'])
 
-        if spec['gen']:
+        def plain(inval, has):
+            if has:
+                run.log.append(f'recv({i},{run.enc(inval)})')
+            for k, a in enumerate(script):
+                run.xlog.append(['act', i, k])
+                simple(k, a)
+            run.xlog.append(['exit', i, 'return'])
+
+        sig = spec.get('sig')
+        if spec['gen'] and spec['inval'] and sig in ('var', 'wrap'):
+            # a body with an open signature still takes inval: `def body(*args)` / a generic decorator's wrapper
+            if sig == 'var':
+                def body(*args):
+                    yield from interp(args[0], True)
+            else:
+                def user_body(inval):
+                    yield from interp(inval, True)
+
+                def body(*args, **kwargs):
+                    return (yield from user_body(*args, **kwargs))
+        elif not spec['gen'] and spec['inval'] and sig in ('var', 'wrap'):
+            def body(*args, **kwargs):
+                plain(args[0], True)
+        elif spec['gen']:
             if spec['inval']:
                 def body(inval):
                     yield from interp(inval, True)
@@ -285,13 +339,6 @@ class Runner:
                 def body():
                     yield from interp(None, False)
         else:
-            def plain(inval, has):
-                if has:
-                    run.log.append(f'recv({i},{run.enc(inval)})')
-                for k, a in enumerate(script):
-                    run.xlog.append(['act', i, k])
-                    simple(k, a)
-                run.xlog.append(['exit', i, 'return'])
             if spec['inval']:
                 def body(inval):
                     plain(inval, True)
@@ -313,7 +360,7 @@ class Runner:
         q = ''.join(f'({int(tm) if tm == int(tm) else tm},{self.idx.get(id(ct.task), "?")}'
                     f'{"" if ct.clock is self.clk.SystemClock else "*"})'
                     for tm, ct in main._clock_scheduler.queue)
-        cs = [f'c{i}={"T" if c._test else "F"}[{" ".join(str(self.idx.get(id(x), "?")) for x in c._waiting_threads)}]'
+        cs = [f'c{i}={"T" if self.holds(i) else "F"}[{" ".join(str(self.idx.get(id(x), "?")) for x in c._waiting_threads)}]'
               for i, c in enumerate(self.conds)]
         fs = []
         for i, f in enumerate(self.fvs):
@@ -365,7 +412,7 @@ class Runner:
             elif op == 'unh':
                 self.conds[x[1]].unhang()
             elif op == 'test':
-                self.conds[x[1]].test = (x[2] == 'T')
+                self.set_test(x[1], x[2] == 'T')
             elif op == 'fvset':
                 if self.fvset(x[1], self.dec(x[2])):
                     res = 'e:Exception'
